@@ -39,11 +39,19 @@ Inductive tok_text : tok -> bytes -> Prop :=
 
 (* what may stand between two tokens *)
 Inductive gap_item := GBlank (c : N) | GLine (body : bytes) | GLong (body : bytes).
+Fixpoint no_close (b : bytes) : bool :=
+  match b with
+  | c :: r => match r with
+              | d :: _ => negb ((c =? 42) && (d =? 47)) && no_close r
+              | [] => true
+              end
+  | [] => true
+  end.
 Definition wf_gap_item (g : gap_item) : bool :=
   match g with
   | GBlank c => is_blank c || is_newline c
   | GLine b => forallb (fun c => negb (is_newline c) && negb (c =? 0)) b          (* // body <newline> *)
-  | GLong b => forallb (fun c => negb (c =? 42) && negb (c =? 0)) b               (* /* body */, body without '*' *)
+  | GLong b => forallb (fun c => negb (c =? 0)) b && no_close b                   (* /* body */, no "*/" inside the body *)
   end.
 Definition gap_bytes (g : gap_item) : bytes :=
   match g with
